@@ -37,7 +37,7 @@ var checks = map[string]checkDef{
 	"C10": {pkg: "verif/mc/checks/c10", shapes: []string{"mini", "person", "flat24", "document"}},
 	"C11": {pkg: "verif/mc/checks/c11", shapes: []string{"mini", "person", "flat24"}},
 	"C12": {pkg: "verif/mc/checks/c12", shapes: []string{"flat24", "person", "document"}},
-	"C13": {pkg: "verif/mc/checks/c13", shapes: []string{"mini", "flat3"}, modfile: "go.sched.mod"},
+	"C13": {pkg: "verif/mc/checks/c13", shapes: []string{"mini", "flat3", "flat24"}, modfile: "go.sched.mod"},
 	"C14": {pkg: "verif/mc/checks/c14"},
 	"C15": {pkg: "verif/mc/checks/c15"},
 	"C16": {pkg: "verif/mc/checks/c16", shapes: []string{"mini", "person", "document", "flat3"}},
